@@ -739,6 +739,8 @@ class EffectDomain(DefaultDomain):
         return val(("seqiter", n), st.set("ev.iters", n + 1).set(f"it.{n}", ("tuple",) + tuple(yields)))
 
     def force_sequence(self, interp, value, st, fr):
+        if isinstance(value, tuple) and value[:1] in (("genobj",), ("lazycomp",)) and getattr(self, "lazy_generators", False):
+            return self.exhaust(interp, value, st, fr if fr is not None else self._holder_frame())
         if isinstance(value, tuple) and value[:1] == ("seqiter",) and len(value) == 2:
             rest = st.get(f"it.{value[1]}", None)
             if not (isinstance(rest, tuple) and rest[:1] == ("tuple",)):
@@ -1731,6 +1733,15 @@ class EffectDomain(DefaultDomain):
         if self.inline:
             callee = interp.resolve_callee(call, st, fr, self.classes)
             if callee is not None and is_generator(callee[0]) and getattr(self, "collect_yields", True):
+                if getattr(self, "lazy_generators", False) and self.lazy_eligible(callee[0]):
+                    # a generator object: the body runs step by step, as its elements are asked for
+                    interp.lazy_request, interp.lazy_made = callee[0], False
+                    try:
+                        made = interp.auto_inline(call, st, fr, self.classes)
+                    finally:
+                        interp.lazy_request = None
+                    if interp.lazy_made and made is not None:
+                        return made
                 # calling a generator function: its body runs now (eagerly) and the call evaluates to the sequence of its yields
                 key = f"gen.{fr.depth + 1}"
                 out = []
